@@ -31,7 +31,7 @@ ASSUMPTIONS = ["backwards clock jumps are not injected (the property speaks of e
                "with a ticking clock the +-1us boundary classes are widened to +-16us and verdicts inside the band are withheld",
                "real-time cross-check is left to the repository's own three sleep-based tests"]
 FAULT_KINDS = ["preemption", "clock_gap_at_boundary", "clock_tick_between_reads", "expiry"]
-PROBES = ["two_creations_together", "batch_of_instances", "two_sweeping_requests_together", "access_concurrent_with_sweep", "due_instance_accessed_during_a_sweep", "slow_release_of_expired_instances", "save_state_between_accesses", "created_via_start_instances", "expired_exactly_at_boundary", "alive_one_us_before_boundary", "restored_from_adapter",
+PROBES = ["stream_left_open_across_the_deadline", "zero_timeout_instance", "two_creations_together", "batch_of_instances", "two_sweeping_requests_together", "access_concurrent_with_sweep", "due_instance_accessed_during_a_sweep", "slow_release_of_expired_instances", "save_state_between_accesses", "created_via_start_instances", "expired_exactly_at_boundary", "alive_one_us_before_boundary", "restored_from_adapter",
           "refused_after_expiry", "self_access_after_expiry_before_sweep", "swept_by_other_access",
           "swept_by_create", "swept_by_metrics", "keepalive_restore"]
 EXHAUSTIVE = {"quick": False, "thorough": False}
@@ -45,6 +45,9 @@ BEGIN = {"scenario_managers": ["smA"], "scenarios": ["base"], "equations": ["sto
 def gen_timeout(rng):
     units = list(UNIT_US)
     r = rng.random()
+    if r < 0.04:
+        # no time at all: the instance is due at the first sweep after its creation (it never has to be served, and it has to be gone then)
+        return rng.choice([{"seconds": 0}, {}, {u: 0 for u in units}])
     if r < 0.6:
         u = rng.choice(units)
         return {u: rng.choice([1, 2, 3])}
@@ -111,7 +114,7 @@ def generate(spec):
 
     def new_inst():
         to = gen_timeout(rng)
-        while timeout_us(to) < (5 * 10**6 if cost else 64 if ticks else 1):      # a request must stay much shorter than any time-out
+        while timeout_us(to) < (5 * 10**6 if cost else 64 if ticks else 0):      # a request must stay much shorter than any time-out
             to = gen_timeout(rng)
         insts.append(timeout_us(to))
         last.append(now)
@@ -132,7 +135,7 @@ def generate(spec):
         now += gap
         if r < 0.12 and len(insts) < n_inst + 1:
             to = gen_timeout(rng)
-            while timeout_us(to) < (5 * 10**6 if cost else 64 if ticks else 1):      # a request must stay much shorter than any time-out
+            while timeout_us(to) < (5 * 10**6 if cost else 64 if ticks else 0):      # a request must stay much shorter than any time-out
                 to = gen_timeout(rng)
             insts.append(timeout_us(to))
             last.append(now)
@@ -169,6 +172,20 @@ def generate(spec):
                 events[-1]["with_trigger"] = {"op": rng.choice(["metrics", "full_metrics"]),
                                               "sched": {"kind": "random", "seed": rng.randrange(2**32), "p": rng.choice([0.05, 0.2, 0.5])}}
             last[k] = now
+    if adapter is None and not ticks and rng.random() < 0.2:
+        # a client opens a stream on one more instance, reads its first chunk and stalls: the open stream is not an access,
+        # the instance comes due like any other - and is gone after the next sweep although its stream is still open
+        tsec = rng.choice([5, 7, 30])
+        events.append({"gap_us": rng.choice([0, 10**6]), "op": "create", "timeout": {"seconds": tsec}, "session": True, "via": "single"})
+        k = len(insts)
+        insts.append(tsec * 10**6)
+        last.append(now)
+        events.append({"gap_us": rng.choice([0, 10**6]), "op": "access", "inst": k, "kind": "stream_hold"})
+        events.append({"gap_us": tsec * 10**6 * rng.choice([1, 1, 4]) + rng.choice([0, 1, 10**6]), "op": rng.choice(["metrics", "full_metrics", "create_other"])})
+        if events[-1]["op"] == "create_other":
+            events[-1] = {"gap_us": events[-1]["gap_us"], "op": "create", "timeout": {"hours": 1}, "session": False, "via": "single"}
+        events.append({"gap_us": rng.choice([0, 1000]), "op": "full_metrics"})
+        events.append({"gap_us": 1000, "op": "access", "inst": k, "kind": rng.choice(["session_results", "keep_alive"])})
     return {"property": PROPERTY,
             "config": {"adapter": adapter, "clock_ticks": ticks, "destroy_cost_us": cost,
                        "model": {"template": "T1", "start": 1.0, "stop": 400.0, "dt": 1.0,
@@ -198,6 +215,7 @@ def execute(case):
                       "destroy_cost_us": cfg.get("destroy_cost_us", 0)}, log, res) as w:
         w.boot()
         clk = w.clock
+        held_streams = []
 
         def peek_present(i):
             return i.id in w.instance_table()
@@ -303,11 +321,24 @@ def execute(case):
                 if ev.get("session"):
                     tb0 = clk.now_us
                     rb = w.post("/%s/begin-session" % i.id, BEGIN)
-                    if rb.status != 200:
-                        res.violate("C17.A-alive-refused", {"event": n, "kind": "begin_session", "status": rb.status})
-                    i.session = True
-                    i.lo, i.hi = tb0, clk.now_us
-                    age(tb0, clk.now_us, skip=i, why="other_access")
+                    if (tb0 - i.hi) >= i.T:
+                        # (only with a zero time-out) the instance is already due when its first request arrives and nobody has
+                        # swept yet: either outcome is accepted, the model follows the server
+                        res.probe("zero_timeout_instance")
+                        expired_any[0] = True
+                        if rb.status == 200:
+                            i.session = True
+                            i.lo, i.hi = tb0, clk.now_us
+                            age(tb0, clk.now_us, skip=i, why="other_access")
+                        else:
+                            i.state = "gone"
+                            expect_destroyed[i.serial] = 1
+                    else:
+                        if rb.status != 200:
+                            res.violate("C17.A-alive-refused", {"event": n, "kind": "begin_session", "status": rb.status})
+                        i.session = True
+                        i.lo, i.hi = tb0, clk.now_us
+                        age(tb0, clk.now_us, skip=i, why="other_access")
                 log.add("return", n, r.status)
             elif op in ("metrics", "full_metrics") and ev.get("with_second"):
                 from sim.threads import Scheduler, make_policy, run_tasks
@@ -441,6 +472,17 @@ def execute(case):
                 elif kind == "stream":
                     # bounded stream: read two chunks, then the client leaves (a full stream would run to the stop time)
                     r, _, _ = w.stream(path, {"settings": {}}, chunks=3)
+                elif kind == "stream_hold":
+                    from worlds.server_world import Resp
+                    res.probe("stream_left_open_across_the_deadline")
+                    r0 = w.app.test_client().open("/%s/stream-steps" % i.id, method="POST", json={"settings": {}}, buffered=False, headers=w.headers(True))
+                    it_ = iter(r0.response)
+                    try:
+                        next(it_)
+                    except Exception:
+                        pass
+                    held_streams.append(r0)
+                    r = Resp(r0.status_code, "")
                 elif kind in ("session_results", "flat_session_results"):
                     r = w.get(path)
                 elif kind == "begin_session":
@@ -538,6 +580,11 @@ def execute(case):
                 if wt:
                     age(pair_t0, pair_t1, skip=i, why="metrics")      # the concurrent sweep happened whatever became of the access
                 log.add("return", n, r.status)
+        for r0 in held_streams:
+            try:
+                r0.close()          # still inside the simulated world
+            except Exception:
+                pass
         # settle: one last trigger, then the destroy() ledger
         t0 = clk.now_us
         w.get("/full-metrics", auth=False)
